@@ -428,3 +428,11 @@ func init() {
 		Rule:        "every schedule (up to the stated deviation bound, or unbounded where the happens-before cache closes the search) of small closed scenarios in which CancelJob races with a running, waiting or finished job; an execution is distinct when its final runner state differs",
 		Explanation: "stateless DFS over thread interleavings of the real PipelineRunner/Scheduler under a controlled scheduler"}
 }
+
+func init() {
+	x2rule := "explicit-state BFS over event histories (schedule, schedule-with-graph-error, cancel, task done/failed, clock advance, reload) of the real runner for every configuration of the grid, deduplicated by a canonical dump of the runner state; states = distinct canonical states, transitions = executed history extensions; an outcome is distinct when the reported runner state differs"
+	for _, p := range []string{"C01", "C03", "C05", "C06", "C07", "C15", "C16"} {
+		propMeta[p] = propInfo{Level: "model_checking", Assumptions: rmcAssumptions, Rule: x2rule,
+			Explanation: "explicit-state BFS over event histories executed on the real PipelineRunner under a controlled scheduler and virtual clock"}
+	}
+}
